@@ -1,6 +1,7 @@
 """C04 driver — tokens are unforgeable, class-separated and bound to their session."""
 import base64
 import json
+import random
 
 import sess
 import srv
@@ -20,6 +21,17 @@ RULE = ("(a) plaintext correspondence: real opaque tokens of every class are dec
         "access token of this provider authenticates, as the client it was minted for; a full revocation request under a refused credential "
         "leaves its target alone, under an accepted one it acts for that client only; the outcomes of the genuine tokens in the userinfo, bearer "
         "and generic slot are compared with Model/TokenFmt.v slot_client. "
+        "(e) REQUESTS IN FLIGHT: the endpoint objects, the session manager and the handlers are shared, long-lived instances; flights of 2-4 "
+        "requests that present tokens of different sessions (two users at one client, one user at two clients, distinct grants; own, wrong-class, "
+        "altered, other-instance and other-client presentations) at userinfo (header / body), introspection, token revocation and the token "
+        "endpoint (refresh, code), on every handler variant, with the calls parse_request / process_request / do_response of the requests "
+        "interleaved - every interleaving for two requests at one endpoint, sampled ones for two endpoints and for 3-4 requests; around every "
+        "single call the inventory of all tokens of all grants is taken. Oracle: what an answer states (sub, user claims, client_id, scope, "
+        "active, the ID Token's sub / aud / nonce / claims, the grant and parent of what was minted, what was revoked / used) belongs to the "
+        "session the PRESENTED token was minted for, nothing outside that grant changes, values that are no genuine token of the slot's class "
+        "and the authenticated client stay refused, and the whole canonical answer equals the answer the same request gets when it runs alone "
+        "(a token the request uses up is replaced by a sibling of the same session); the session each answer stands for is compared with "
+        "Model/TokenFmt.v run_tflight / tanswer1. "
         "A case is one presentation; non-trivial when the presented string derives from a genuine token.")
 ASSUMPTIONS = ["Fernet is an authenticated encryption and JWS signatures are unforgeable (symbolic model); byte-level mutations are exercised on the real libraries",
                "rndstr(32) / uuid values are fresh"]
@@ -855,6 +867,649 @@ def bearer_oracle(ctx, rng, variant, authn, n_flows, n_mut):
                         label="slot_%s" % authn_name.replace("-", "_"))
 
 
+# ---------------------------------------------------------------------------------------------------------------
+# REQUESTS IN FLIGHT.  The endpoint objects (userinfo, introspection, token_revocation, token), the session manager and
+# the token handlers are the shared, long-lived instances of the server; a host that serves more than one request at
+# a time runs parse_request / process_request / do_response of DIFFERENT requests through them in any order.  A flight is
+# 2-4 requests that present tokens of different sessions (users / clients / grants), plus wrong-class, altered,
+# foreign-instance and wrong-client presentations, and a schedule: an interleaving of their steps.  Oracle: what the
+# answer to a request states belongs to the session the PRESENTED token was minted for, what it changed (minted,
+# revoked, used) lies in that grant, and the whole canonical answer equals the answer the same request gets alone.
+TF_ENDPOINTS = ["userinfo", "introspection", "revocation", "refresh", "code"]
+TF_EP_NUM = {"userinfo": 0, "introspection": 1, "revocation": 2, "refresh": 3, "code": 4}
+TF_STEPS = ["parse", "process", "respond"]
+TF_PAIRS = [("diana", "client_1"), ("babs", "client_1"), ("diana", "client_2"), ("dian", "client_12"), ("babs", "client_2"), ("dian", "client_1")]
+TF_SCOPES = {"client_1": [["openid", "email", "offline_access"], ["openid", "profile", "offline_access"]],
+             "client_2": [["openid", "email", "address", "offline_access"], ["openid", "phone", "offline_access"]],
+             "client_12": [["openid", "profile", "email", "offline_access"], ["openid", "address", "phone", "offline_access"]]}
+TF_REAL_CLASS = {"access": "access_token", "refresh": "refresh_token", "code": "authorization_code", "id_token": "id_token"}
+TF_VOLATILE = ("iat", "exp", "auth_time", "at_hash", "c_hash", "jti", "sid")
+
+
+class FastSession(sess.RealSession):
+    """RealSession with the same bookkeeping done incrementally: a flight run takes the inventory of all tokens
+    around every single call"""
+
+    def harvest(self):
+        ids = self.__dict__.setdefault("_tok_ids", set())
+        marks = self.__dict__.setdefault("_grant_marks", {})
+        if len(ids) != len(self.tokobj):
+            ids.clear()
+            ids.update(id(o) for o in self.tokobj)
+            marks.clear()
+        new = []
+        for gi, (sid, g, u, c) in enumerate(self.grants):
+            it = g.issued_token
+            mark = (len(it), id(it[-1]) if it else 0)
+            if marks.get(gi) == mark:
+                continue
+            marks[gi] = mark
+            for t in it:
+                if id(t) not in ids:
+                    ids.add(id(t))
+                    self.tokobj.append(t)
+                    self.tokens.append(t.value)
+                    self.tok_grant.append(gi)
+                    new.append(len(self.tokens) - 1)
+        return new
+
+    def find_new_grants(self):
+        from idpyoidc.server.session.grant import Grant
+        known = self.__dict__.setdefault("_grant_ids", set())
+        if len(known) != len(self.grants):
+            known.clear()
+            known.update(id(g) for _, g, _, _ in self.grants)
+        for k, n in self.sm.db.items():
+            if isinstance(n, Grant) and id(n) not in known:
+                if len(k.split(";;")) != 3:
+                    continue
+                u, c, gid = k.split(";;")
+                known.add(id(n))
+                self.grants.append((self.sm.encrypted_session_id(u, c, gid), n, u, c))
+
+
+def all_interleavings(k, steps):
+    """every order of the steps of k requests in which each request's own steps stay in order"""
+    out = []
+
+    def go(done, acc):
+        if all(d == steps for d in done):
+            out.append(list(acc))
+            return
+        for i in range(k):
+            if done[i] < steps:
+                done[i] += 1
+                acc.append(i)
+                go(done, acc)
+                acc.pop()
+                done[i] -= 1
+    go([0] * k, [])
+    return out
+
+
+def random_interleaving(rng, k, steps):
+    seq = [i for i in range(k) for _ in range(steps)]
+    rng.shuffle(seq)
+    return seq
+
+
+def sched_text(sched):
+    seen = {}
+    out = []
+    for i in sched:
+        n = seen.get(i, 0)
+        seen[i] = n + 1
+        out.append("%s %d" % (TF_STEPS[n], i))
+    return ", ".join(out)
+
+
+class TFlights:
+    def __init__(self, ctx, variant):
+        self.ctx, self.variant = ctx, variant
+        shared, jwt, idt_alg = variant[:3]
+        alias = len(variant) > 3 and variant[3] == "alias"
+        jwt_refresh = len(variant) > 4 and variant[4]
+        self.shared, self.jwt, self.jwt_refresh, self.idt_alg = shared, jwt, jwt_refresh, idt_alg
+        old, old_conf = srv.make_server, srv.op_conf
+
+        def mk(*a, **k):
+            k.setdefault("pinned", shared)
+            return old(*a, **k)
+
+        def conf_with_bearer(*a, **k):
+            # the revocation endpoint also allows an access token as the client's credential (bearer_header), as userinfo does
+            conf = old_conf(*a, **k)
+            for name, spec in conf["endpoint"].items():
+                if name == "token_revocation":
+                    cur = spec["kwargs"].get("client_authn_method") or []
+                    spec["kwargs"]["client_authn_method"] = list(cur) + [m for m in ("bearer_header",) if m not in cur]
+            return conf
+        srv.make_server, srv.op_conf = mk, conf_with_bearer
+        try:
+            over = {c: {"id_token_signed_response_alg": idt_alg} for c in sess.CLIENTS} if idt_alg else None
+            self.rs = FastSession(oidc=True, jwt_access=jwt, client_over=over, alias_kwargs=alias, jwt_refresh=jwt_refresh)
+            self.rs2 = FastSession(oidc=True, jwt_access=jwt, client_over=over, alias_kwargs=alias, jwt_refresh=jwt_refresh)
+        finally:
+            srv.make_server, srv.op_conf = old, old_conf
+        self.userdb = json.load(open(srv.USERS))
+        self.pool = []
+        self.foreign = None
+        self.cases = []
+        self._last = None       # the inventory after the latest call, if nothing happened since
+
+    def close(self):
+        self.rs.close()
+        self.rs2.close()
+
+    # ---- sessions and the supply of tokens
+    def _login(self, rs, user, client, scope, nonce):
+        rs.find_new_grants()
+        rs.harvest()
+        o = rs.run(("authz", user, client, scope, "code", {"nonce": nonce}))
+        if o[0] != "ok" or len(o[1]) != 1:
+            raise RuntimeError("authorization of (%s, %s) did not complete: %r" % (user, client, o))
+        return o[1][0]
+
+    def _redeem(self, rs, client, code):
+        rs.parsed.append(rs.ep["token"].parse_request(rs._token_req(client, {
+            "grant_type": "authorization_code", "code": rs.tokens[code], "redirect_uri": "https://%s.example.com/cb" % client})))
+        p = rs.run(("proc", len(rs.parsed) - 1, None))
+        if p[0] != "ok":
+            raise RuntimeError("code of %s not redeemed: %r" % (client, p))
+        return p[1]
+
+    def open_session(self, k):
+        user, client = TF_PAIRS[k % len(TF_PAIRS)]
+        scope = TF_SCOPES[client][k % 2]
+        nonce = "nonce-%s-%s-%d" % (user, client, k)
+        code = self._login(self.rs, user, client, scope, nonce)
+        t = self._redeem(self.rs, client, code)
+        gi = self.rs.tok_grant[code]
+        f = {"k": k, "user": user, "client": client, "scope": scope, "nonce": nonce, "gi": gi, "sub": self.rs.grants[gi][1].sub,
+             "access": t["access_token"], "refresh": t["refresh_token"], "id_token": t["id_token"], "spent_code": code}
+        self.pool.append(f)
+        return f
+
+    def ensure_pool(self, n):
+        while len(self.pool) < n:
+            self.open_session(len(self.pool))
+        if self.foreign is None:
+            code = self._login(self.rs2, "diana", "client_1", TF_SCOPES["client_1"][0], "nonce-foreign")
+            t = self._redeem(self.rs2, "client_1", code)
+            spare = self._login(self.rs2, "diana", "client_1", TF_SCOPES["client_1"][0], "nonce-foreign")
+            self.foreign = {"access": self.rs2.tokens[t["access_token"]], "refresh": self.rs2.tokens[t["refresh_token"]],
+                            "code": self.rs2.tokens[spare], "id_token": self.rs2.tokens[t["id_token"]]}
+
+    def supply(self, f, cls, consumed):
+        """a live token of class cls of session f (index into rs.tokens).  consumed: the request will use it up - a fresh
+        one is produced by a request of its own, run alone (a refresh for access / refresh tokens, an authorization for codes)"""
+        rs = self.rs
+        if cls == "code":
+            # the same user, client, scope, nonce: a grant of its own
+            if consumed:
+                return self._login(rs, f["user"], f["client"], f["scope"], f["nonce"])
+            t = f.get("spare_code")
+            if t is None or rs.tokobj[t].used or rs.tokobj[t].revoked or not rs.tokobj[t].is_active():
+                t = f["spare_code"] = self._login(rs, f["user"], f["client"], f["scope"], f["nonce"])
+            return t
+        if cls == "id_token" or not consumed:
+            return f[cls]
+        rs.parsed.append(rs.ep["token"].parse_request(rs._token_req(f["client"], {"grant_type": "refresh_token", "refresh_token": rs.tokens[f["refresh"]]})))
+        p = rs.run(("proc", len(rs.parsed) - 1, True))
+        if p[0] != "ok":
+            raise RuntimeError("no fresh tokens for session %d: %r" % (f["k"], p))
+        return p[1]["access_token" if cls == "access" else "refresh_token"]
+
+    # ---- one request
+    def materialise(self, spec):
+        """spec -> the request as it is sent: endpoint object, body, http_info, the presented value, the session it was minted for"""
+        rs = self.rs
+        f = self.pool[spec["sess"]]
+        ep_name = spec["ep"]
+        cls = spec["cls"]
+        what = spec["what"]
+        tid, gi = None, None
+        if what == "foreign":
+            value = self.foreign[cls]
+        elif what == "garbage":
+            value = ["x", "Zm9vYmFy", "a.b.c", "eyJhbGciOiJub25lIn0.e30."][spec.get("n", 0) % 4]
+        else:
+            tid = self.supply(f, cls, consumed=(what == "own" and ep_name in ("revocation", "code")))
+            value = rs.tokens[tid]
+            gi = rs.tok_grant[tid]
+            if what == "mutant":
+                muts = mutants(random.Random(spec.get("n", 0)), value, rs.tokens[self.pool[(spec["sess"] + 1) % len(self.pool)][cls]] if cls != "code" else None)
+                value = muts[spec.get("n", 0) % len(muts)][1]
+                tid = None
+        by = f["client"] if spec.get("by", "owner") == "owner" else [c for c in sess.CLIENTS if c != f["client"]][spec.get("n", 0) % 2]
+        http_info = {}
+        if ep_name == "userinfo":
+            ep = rs.ep["userinfo"]
+            if spec.get("form", "header") == "body":
+                body = {"access_token": value}
+            else:
+                body = {}
+                http_info = {"headers": {("authorization" if spec.get("form", "header") == "header" else "Authorization"): "Bearer " + value}}
+        else:
+            ep = rs.ep[{"introspection": "introspection", "revocation": "token_revocation", "refresh": "token", "code": "token"}[ep_name]]
+            if ep_name in ("introspection", "revocation"):
+                body = {"token": value}
+            elif ep_name == "refresh":
+                body = {"grant_type": "refresh_token", "refresh_token": value}
+            else:
+                body = {"grant_type": "authorization_code", "code": value, "redirect_uri": "https://%s.example.com/cb" % f["client"]}
+            if spec.get("authn", "post") == "basic":
+                cred = base64.b64encode(("%s:%s" % (by, rs.secret(by))).encode()).decode()
+                http_info = {"headers": {"authorization": "Basic " + cred}}
+            elif spec.get("authn") == "bearer":
+                # the client's credential is a live access token it holds: of the session itself (owner), or of another
+                # session of the other client
+                cf = f if by == f["client"] else next(x for x in self.pool if x["client"] == by)
+                http_info = {"headers": {"authorization": "Bearer " + rs.tokens[cf["access"]]}}
+            else:
+                body = rs._token_req(by, body)
+        self._last = None
+        return {"spec": spec, "ep": ep, "body": body, "http_info": http_info, "value": value, "tid": tid, "gi": gi, "f": f, "by": by,
+                "genuine": tid is not None, "parsed": None, "result": None, "answer": None, "done": 0, "delta": []}
+
+    def snap(self):
+        rs = self.rs
+        rs.find_new_grants()
+        rs.harvest()
+        return (len(rs.tokens), [bool(t.revoked) for t in rs.tokobj], [t.used for t in rs.tokobj], [bool(g[1].revoked) for g in rs.grants])
+
+    def tok_desc(self, q, i):
+        """a token of this provider as seen from request q: relative to the presented value and the grant it sits in"""
+        rs = self.rs
+        g = rs.tok_grant[i]
+        t = rs.tokobj[i]
+        b = getattr(t, "based_on", None)
+        return {"cls": t.token_class, "grant": "own" if g == q["gi"] else "other:%s/%s" % (rs.grants[g][2], rs.grants[g][3]),
+                "rel": "presented" if rs.tokens[i] == q["value"] else "child" if b is not None and b == q["value"] else "-",
+                "scope": sorted(t.scope or [])}
+
+    def value_desc(self, q, v):
+        rs = self.rs
+        if v in rs.tokens:
+            return self.tok_desc(q, rs.tokens.index(v))
+        return {"cls": "?", "grant": "unknown value", "rel": "-", "scope": []}
+
+    def delta(self, q, before, after):
+        rs = self.rs
+        out = []
+        for i in range(before[0], after[0]):
+            out.append(["minted", self.tok_desc(q, i)])
+        for i in range(before[0]):
+            if before[1][i] != after[1][i]:
+                out.append(["revoked" if after[1][i] else "unrevoked", self.tok_desc(q, i)])
+            if before[2][i] != after[2][i]:
+                out.append(["used", self.tok_desc(q, i)])
+        for g in range(len(before[3])):
+            if before[3][g] != after[3][g]:
+                out.append(["grant-revoked", "own" if g == q["gi"] else "other:%s/%s" % (rs.grants[g][2], rs.grants[g][3])])
+        return out
+
+    def canon_msg(self, q, d):
+        """a response (arguments or decoded body): token values by what they are, the ID Token by what it states"""
+        out = {}
+        for k, v in d.items():
+            if k in ("access_token", "refresh_token") and isinstance(v, str):
+                out[k] = self.value_desc(q, v)
+            elif k == "id_token" and isinstance(v, str) and v.count(".") == 2:
+                try:
+                    pl = v.split(".")[1]
+                    c = json.loads(base64.urlsafe_b64decode(pl + "=" * (-len(pl) % 4)))
+                    out[k] = {a: b for a, b in c.items() if a not in TF_VOLATILE}
+                except Exception:
+                    out[k] = "undecodable"
+            elif k == "scope":
+                out[k] = sorted(v.split(" ") if isinstance(v, str) else list(v))
+            else:
+                out[k] = v
+        return json.loads(json.dumps(out, default=str, sort_keys=True))
+
+    def step(self, q):
+        """the next call that belongs to request q.  Returns True when q has its answer."""
+        n = q["done"]
+        q["done"] += 1
+        ep = q["ep"]
+        before = self._last or self.snap()
+        try:
+            if n == 0:
+                p = ep.parse_request(dict(q["body"]), http_info=copy_info(q["http_info"]))
+                q["parsed"] = p
+                if sess.RealSession.err_of(p):
+                    q["answer"] = {"stage": "parse", "status": "err:" + str(p["error"])}
+            elif n == 1:
+                kw = {"issue_refresh": True} if q["spec"].get("issue_refresh") else {}
+                r = ep.process_request(q["parsed"], **kw)
+                q["result"] = r
+                ra = r.get("response_args", r) if isinstance(r, dict) else r
+                e = sess.RealSession.err_of(ra)
+                if e:
+                    q["answer"] = {"stage": "process", "status": "err:" + e}
+                else:
+                    says = dict(ra.to_dict() if hasattr(ra, "to_dict") else ra)
+                    if q["spec"]["ep"] == "userinfo":
+                        says = {"sub": says.pop("sub", None), "client_id": r.get("client_id"), "claims": says}
+                    q["says"] = says
+            else:
+                r = q["result"]
+                d = ep.do_response(request=q["parsed"], **r) if isinstance(r, dict) else {"response": r.to_json()}
+                body = d.get("response")
+                try:
+                    body = self.canon_msg(q, json.loads(body))
+                except Exception:
+                    pass
+                q["answer"] = {"stage": "respond", "status": "ok", "says": q["says"], "body": body,
+                               "headers": sorted("%s: %s" % (a, b) for a, b in d.get("http_headers", []))}
+        except Exception as e:       # a crash is a refusal
+            q["answer"] = {"stage": TF_STEPS[n], "status": "exc:" + type(e).__name__}
+        after = self._last = self.snap()
+        if n == 1 and "says" in q:
+            q["says"] = self.canon_msg(q, q["says"])      # after the inventory: the values minted by this call are known
+        q["delta"] += [[TF_STEPS[n]] + x for x in self.delta(q, before, after)]
+        if q["answer"] is not None:
+            q["answer"]["delta"] = q["delta"]
+            q["done"] = len(TF_STEPS)
+            return True
+        return False
+
+    def alone(self, spec):
+        q = self.materialise(spec)
+        while not self.step(q):
+            pass
+        return q
+
+    # ---- the oracle of one answer, from the property text
+    def judge(self, q, rec, how):
+        ctx = self.ctx
+        a, f, spec = q["answer"], q["f"], q["spec"]
+        ok = a["status"] == "ok"
+        who = "request %d (%s, %s %s of session %d = %s at %s, sent by %s)" % (
+            q.get("i", 0), spec["ep"], spec["what"], spec["cls"], f["k"], f["user"], f["client"], q["by"])
+        real_cls = TF_REAL_CLASS[spec["cls"]]
+        says = a.get("says") or {}
+        resolved = ok
+        if spec["ep"] == "introspection":
+            resolved = ok and bool(says.get("active"))
+        if spec["ep"] == "revocation":
+            resolved = any(d[1] == "revoked" for d in a["delta"])
+        right_slot = {"userinfo": ["access_token"], "introspection": ["access_token", "refresh_token"],
+                      "revocation": ["access_token", "refresh_token", "authorization_code"], "refresh": ["refresh_token"],
+                      "code": ["authorization_code"]}[spec["ep"]]
+        # everything a request changes lies in the grant of the token it presented
+        for d in a["delta"]:
+            where = d[2]["grant"] if isinstance(d[2], dict) else d[2]
+            if where != "own":
+                ctx.violation("resolves-elsewhere", "%s, %s: its %s step %s a token of %s" % (who, how, d[0], d[1], where), rec)
+            if d[1] == "minted" and d[2]["rel"] != "child":
+                ctx.violation("resolves-elsewhere", "%s, %s: minted a %s that is not based on the presented token" % (who, how, d[2]["cls"]), rec)
+            if d[1] in ("revoked", "used") and spec["ep"] in ("userinfo", "introspection"):
+                ctx.violation("resolves-elsewhere", "%s, %s: a %s request %s a token" % (who, how, spec["ep"], d[1]), rec)
+        if not resolved:
+            return
+        if spec["what"] in ("mutant", "garbage"):
+            ctx.violation("mutant-accepted", "%s, %s: an altered value is accepted: %r" % (who, how, says), rec)
+            return
+        if spec["what"] == "foreign":
+            ctx.violation("foreign-accepted", "%s, %s: a token of another provider instance is accepted: %r" % (who, how, says), rec)
+            return
+        if real_cls not in right_slot:
+            ctx.violation("wrong-class-accepted", "%s, %s: a %s is accepted: %r" % (who, how, real_cls, says), rec)
+            return
+        if spec["ep"] != "userinfo" and q["by"] != f["client"]:
+            ctx.violation("resolves-elsewhere", "%s, %s: a token of %s serves %s: %r" % (who, how, f["client"], q["by"], says), rec)
+            return
+        # an accepted token: user, client and grant are those it was minted for
+        user = self.userdb[f["user"]]
+
+        def claims_of(d, skip):
+            for k, v in d.items():
+                if k in skip:
+                    continue
+                if (k in user and user[k] != v) or any(other != f["user"] and k in rec_ and rec_[k] == v and user.get(k) != v
+                                                       for other, rec_ in self.userdb.items()):
+                    yield k, v
+        wrong = []
+        if spec["ep"] == "userinfo":
+            if says.get("sub") != f["sub"]:
+                wrong.append("sub %r" % says.get("sub"))
+            if says.get("client_id") != f["client"]:
+                wrong.append("client %r" % says.get("client_id"))
+            wrong += ["claim %s=%r" % kv for kv in claims_of(says.get("claims") or {}, ())]
+            if isinstance(a.get("body"), dict):
+                if a["body"].get("sub") != f["sub"]:
+                    wrong.append("body sub %r" % a["body"].get("sub"))
+                wrong += ["body claim %s=%r" % kv for kv in claims_of(a["body"], ("sub",))]
+        elif spec["ep"] == "introspection":
+            if says.get("sub") != f["sub"]:
+                wrong.append("sub %r" % says.get("sub"))
+            if says.get("client_id") != f["client"]:
+                wrong.append("client %r" % says.get("client_id"))
+            if says.get("token_class", real_cls) != real_cls:
+                wrong.append("class %r" % says.get("token_class"))
+            if sorted(says.get("scope") or []) != sorted(self.rs.tokobj[q["tid"]].scope or f["scope"]):
+                wrong.append("scope %r" % says.get("scope"))
+            if isinstance(a.get("body"), dict) and {k: a["body"].get(k) for k in ("sub", "client_id", "scope")} != {k: says.get(k) for k in ("sub", "client_id", "scope")}:
+                wrong.append("body %r" % a["body"])
+        elif spec["ep"] == "revocation":
+            gone = [d[2] for d in a["delta"] if d[1] == "revoked"]
+            if any(g["rel"] != "presented" for g in gone):
+                wrong.append("revoked %r" % gone)
+        else:
+            for part in (says, a.get("body") if isinstance(a.get("body"), dict) else {}):
+                for k in ("access_token", "refresh_token"):
+                    if k in part and (part[k]["grant"] != "own" or part[k]["rel"] != "child" or part[k]["cls"] != k):
+                        wrong.append("%s %r" % (k, part[k]))
+                idt = part.get("id_token")
+                if isinstance(idt, dict):
+                    if idt.get("sub") != f["sub"]:
+                        wrong.append("id_token sub %r" % idt.get("sub"))
+                    if f["client"] not in (idt.get("aud") if isinstance(idt.get("aud"), list) else [idt.get("aud")]):
+                        wrong.append("id_token aud %r" % idt.get("aud"))
+                    if idt.get("nonce") not in (None, f["nonce"]):
+                        wrong.append("id_token nonce %r" % idt.get("nonce"))
+                    wrong += ["id_token claim %s=%r" % kv for kv in claims_of(idt, ("sub", "aud", "nonce", "iss", "acr"))]
+                elif "id_token" in part:
+                    wrong.append("id_token %r" % idt)
+        if wrong:
+            ctx.violation("resolves-elsewhere", "%s, %s: the answer belongs to another session: %s" % (who, how, "; ".join(wrong)), rec)
+
+    def observed_session(self, q):
+        """the session (grant number) the answer to q stands for, from what it states alone; None: refused"""
+        a, spec = q["answer"], q["spec"]
+        says = a.get("says") or {}
+        rs = self.rs
+        if a["status"] != "ok":
+            return None
+        if spec["ep"] in ("refresh", "code", "revocation"):
+            gs = set()
+            for d in a["delta"]:
+                if d[1] in ("minted", "revoked") and isinstance(d[2], dict):
+                    gs.add(d[2]["grant"])
+            if not gs:
+                return None
+            if gs == {"own"}:
+                return q["gi"]
+            return 9999
+        if spec["ep"] == "introspection" and not says.get("active"):
+            return None
+        cands = [gi for gi, (sid, g, u, c) in enumerate(rs.grants) if g.sub == says.get("sub") and c == says.get("client_id")
+                 and (spec["ep"] != "userinfo" or all(self.userdb[u].get(k) == v for k, v in (says.get("claims") or {}).items() if k in self.userdb[u]))]
+        if q["gi"] in cands:
+            return q["gi"]
+        return cands[0] if cands else 9999
+
+    # ---- one flight
+    def fly(self, specs, sched, family):
+        ctx = self.ctx
+        self.ensure_pool(max(len(TF_PAIRS), max(s["sess"] for s in specs) + 2))
+        rec = {"kind": "tflight", "variant": list(self.variant), "family": family, "specs": specs, "schedule": list(sched),
+               "schedule_text": sched_text(sched)}
+        # every request alone (a token that the request uses up is replaced by a sibling of the same session)
+        alone = []
+        for i, sp in enumerate(specs):
+            q = self.alone(sp)
+            q["i"] = i
+            alone.append(q)
+            self.judge(q, rec, "alone")
+        qs = []
+        for i, sp in enumerate(specs):
+            q = self.materialise(sp)
+            q["i"] = i
+            qs.append(q)
+        for i in sched:
+            if qs[i]["done"] < len(TF_STEPS):
+                self.step(qs[i])
+        rec["answers"] = [q["answer"] for q in qs]
+        rec["presented"] = [q["value"][:120] for q in qs]
+        ctx.case_seen(rec, True)
+        ctx.count("flight:%s:k=%d" % (family, len(specs)))
+        for i, q in enumerate(qs):
+            ctx.count("flight-request:%s:%s:%s" % (q["spec"]["ep"], q["spec"]["what"], (q["answer"] or {}).get("status", "none").split(":")[0]))
+            if q["answer"] is None:
+                ctx.violation("flight-no-answer", "request %d gets no answer in schedule [%s]" % (i, sched_text(sched)), rec)
+                continue
+            self.judge(q, rec, "in flight [%s]" % sched_text(sched))
+            if q["answer"] != alone[i]["answer"]:
+                was_ok = alone[i]["answer"]["status"] == "ok"
+                key = "genuine-refused" if was_ok and q["answer"]["status"] != "ok" else "resolves-elsewhere"
+                ctx.violation(key, "request %d (%s with the %s of session %d: %s at %s) is answered otherwise in flight [%s] than alone: %s -- alone: %s"
+                              % (i, q["spec"]["ep"], q["spec"]["cls"], q["f"]["k"], q["f"]["user"], q["f"]["client"], sched_text(sched),
+                                 json.dumps(q["answer"], sort_keys=True)[:700], json.dumps(alone[i]["answer"], sort_keys=True)[:700]), rec)
+        self.model_case(qs, sched, rec)
+
+    # ---- the same flight in the model (Model/TokenFmt.v run_tflight)
+    def model_case(self, qs, sched, rec):
+        rs = self.rs
+        kc, ka, kr = 0, (1 if self.jwt else 0), (1 if self.jwt_refresh else 0)
+        cfg = "(%s, %s, %s, %s, %s)" % (coq_nat(kc), coq_nat(ka), coq_nat(kr), coq_bool(not self.shared), coq_bool((self.idt_alg or "RS256") != "ES256"))
+        db = {}
+        reqs = []
+        for q in qs:
+            sp = q["spec"]
+            if sp["what"] in ("mutant", "garbage"):
+                tok = "TGarbage"
+            elif sp["what"] == "foreign":
+                tok = "TForeign %s %s" % (coq_nat(MCLS[TF_REAL_CLASS[sp["cls"]]]), coq_bool(not self.shared))
+            else:
+                gi = q["gi"]
+                db[gi] = "(%s, mkSess %s %s %s)" % (coq_str("sid-%d" % gi), coq_nat(gi), coq_str(rs.grants[gi][2]), coq_str(rs.grants[gi][3]))
+                tok = "TMinted %s %s" % (coq_nat(MCLS[TF_REAL_CLASS[sp["cls"]]]), coq_str("sid-%d" % gi))
+            reqs.append("mkTspec %s (%s) %s" % (coq_nat(TF_EP_NUM[sp["ep"]]), tok, coq_str(q["by"])))
+        obs = []
+        for i, q in enumerate(qs):
+            if q["answer"] is None:
+                continue
+            o = self.observed_session(q)
+            obs.append("(%s, %s)" % (coq_nat(i), coq_opt(o, coq_nat, "nat")))
+        ev = []
+        seen = {}
+        for i in sched:
+            n = seen.get(i, 0)
+            seen[i] = n + 1
+            ev.append("%s %s" % (("TvParse", "TvProcess", "TvRespond")[n], coq_nat(i)))
+        term = "(%s, %s, %s, %s, %s)" % (cfg, coq_list([db[g] for g in sorted(db)], "(pystr * sess)"), coq_list(reqs, "tspec"),
+                                         coq_list(ev, "tevent"), coq_list(obs, "(nat * option nat)"))
+        self.cases.append((term, rec))
+
+    def check_model(self, label):
+        self.ctx.coq_check_cases(["Lib.Base", "Lib.PyStr", "Lib.Crypto", "Model.Lv", "Model.TokenFmt"], "tfcase", "chk_tflight", self.cases,
+                                 shard=120, label=label, diag="diag_tflight")
+        self.cases = []
+
+    # ---- the families
+    def spec(self, rng, ep, sess_k, what="own", cls=None, **kw):
+        if cls is None:
+            cls = {"userinfo": "access", "refresh": "refresh", "code": "code"}.get(ep) or rng.choice(["access", "refresh"])
+        sp = {"ep": ep, "sess": sess_k, "what": what, "cls": cls, "n": rng.randrange(1000)}
+        if ep == "userinfo":
+            sp["form"] = kw.pop("form", rng.choice(["header", "header", "body", "Header"]))
+        else:
+            sp["authn"] = kw.pop("authn", rng.choice(["post", "basic", "bearer"] if ep == "revocation" else ["post", "basic"]))
+            sp["by"] = kw.pop("by", "owner")
+        if ep == "refresh":
+            sp["issue_refresh"] = kw.pop("issue_refresh", rng.random() < 0.5)
+        sp.update(kw)
+        return sp
+
+    def hostile_spec(self, rng, ep, sess_k):
+        """a presentation that must be refused: wrong class, altered, another instance's, another client's"""
+        kind = rng.choice(["wrong-class", "mutant", "foreign", "garbage", "other-client"])
+        right = {"userinfo": ["access"], "introspection": ["access", "refresh"], "revocation": ["access", "refresh"], "refresh": ["refresh"], "code": ["code"]}[ep]
+        if kind == "wrong-class":
+            wrong = [c for c in ("access", "refresh", "id_token", "code") if c not in right and not (ep == "revocation" and c == "code")]
+            return self.spec(rng, ep, sess_k, "own", rng.choice(wrong))
+        if kind == "other-client" and ep != "userinfo":
+            return self.spec(rng, ep, sess_k, "own", rng.choice(right), by="other")
+        if kind == "other-client":
+            kind = "mutant"
+        return self.spec(rng, ep, sess_k, kind, rng.choice(right))
+
+    def families(self, rng, quick):
+        n_sess = len(TF_PAIRS)
+        self.ensure_pool(n_sess)
+
+        def sessions(k):
+            return rng.sample(range(n_sess), k)
+        # (1) two requests at ONE endpoint, tokens of two sessions, every interleaving of parse / process / respond
+        every2 = all_interleavings(2, len(TF_STEPS))
+        for ep in TF_ENDPOINTS:
+            for rep in range(1 if quick else 4):
+                a, b = sessions(2)
+                specs = [self.spec(rng, ep, a), self.spec(rng, ep, b)]
+                for sched in every2:
+                    self.fly(specs, sched, "same-endpoint")
+        # (2) two requests at two endpoints (the session manager and the handlers are shared by all endpoints)
+        pairs = [(x, y) for x in TF_ENDPOINTS for y in TF_ENDPOINTS if x < y]
+        for x, y in pairs:
+            a, b = sessions(2)
+            specs = [self.spec(rng, x, a), self.spec(rng, y, b)]
+            for sched in (rng.sample(every2, 4) if quick else every2):
+                self.fly(specs, sched, "two-endpoints")
+        # (3) a request that must be refused in flight with a good one of another session, same endpoint: every interleaving
+        for ep in TF_ENDPOINTS:
+            for rep in range(1 if quick else 6):
+                a, b = sessions(2)
+                specs = [self.hostile_spec(rng, ep, a), self.spec(rng, ep, b)]
+                if rng.random() < 0.5:
+                    specs.reverse()
+                for sched in (rng.sample(every2, 8) if quick else every2):
+                    self.fly(specs, sched, "hostile-and-good")
+        # (4) one user at two clients, two users at one client, the same endpoint: the sessions differ in one coordinate only
+        for ep in TF_ENDPOINTS:
+            for a, b in ((0, 2), (0, 1)):
+                specs = [self.spec(rng, ep, a), self.spec(rng, ep, b)]
+                for sched in (rng.sample(every2, 3) if quick else every2):
+                    self.fly(specs, sched, "one-coordinate")
+        # (5) three and four requests, any endpoints, any interleaving
+        for _ in range(30 if quick else 1500):
+            k = rng.choice([3, 3, 4])
+            ss = sessions(k)
+            same = rng.random() < 0.4
+            ep0 = rng.choice(TF_ENDPOINTS)
+            specs = []
+            for j in range(k):
+                ep = ep0 if same else rng.choice(TF_ENDPOINTS)
+                specs.append(self.hostile_spec(rng, ep, ss[j]) if rng.random() < 0.2 else self.spec(rng, ep, ss[j]))
+            self.fly(specs, random_interleaving(rng, k, len(TF_STEPS)), "random-%d" % k)
+
+
+def copy_info(http_info):
+    return json.loads(json.dumps(http_info)) if http_info else {}
+
+
+def flight_oracle(ctx, rng, variant):
+    """-> the model cases of the flights flown on this variant"""
+    fl = TFlights(ctx, variant)
+    try:
+        fl.families(rng, ctx.quick)
+        return fl.cases
+    finally:
+        fl.close()
+
+
 VARIANTS = [(True, False, None), (False, False, None), (True, True, None), (True, True, "ES256"),
             (True, False, None, "alias", False), (True, True, None, "alias", True)]
 
@@ -874,7 +1529,28 @@ def run(ctx):
             if ctx.quick and j != i % len(configs):
                 continue
             bearer_oracle(ctx, rng, variant, authn, 3 if ctx.quick else 8, 10 if ctx.quick else 60)
+    # requests of different sessions in flight at the shared endpoint objects
+    cases = []
+    for variant in VARIANTS:
+        cases += flight_oracle(ctx, rng, variant)
+    ctx.coq_check_cases(["Lib.Base", "Lib.PyStr", "Lib.Crypto", "Model.Lv", "Model.TokenFmt"], "tfcase", "chk_tflight", cases,
+                        shard=120, label="tflight", diag="diag_tflight")
 
 
 def replay(ctx, rp):
+    case = rp.get("case") or {}
+    if case.get("kind") == "tflight":
+        # the recorded flight alone, on a fresh provider of the recorded variant
+        fl = TFlights(ctx, tuple(case["variant"]))
+        try:
+            print("replaying flight [%s] of %d requests on variant %r" % (sched_text(case["schedule"]), len(case["specs"]), case["variant"]))
+            for i, sp in enumerate(case["specs"]):
+                print("  request %d: %s" % (i, json.dumps(sp, sort_keys=True)))
+            fl.fly(case["specs"], case["schedule"], case.get("family", "replay"))
+            fl.check_model("tflight_replay")
+        finally:
+            fl.close()
+        for v in ctx.violations[:6]:
+            print("  " + v["what"][:1200])
+        return
     run(ctx)
